@@ -94,6 +94,7 @@ type v2run struct {
 	holds   sync.Map // op -> chan struct{}
 	calls   sync.Map // call id -> chan struct{} (hold channel), for release
 	pending atomic.Int64
+	reacts  atomic.Int64
 	ncall   int64
 	cancel  context.CancelFunc
 	ctx     context.Context
@@ -138,6 +139,12 @@ func (r *v2run) listener(event string, val int, msg string, metadata interface{}
 		r.log.Logf("L", "pause %d", val)
 	case b2.ResumeEvent:
 		r.log.Logf("L", "resume")
+		if r.reacts.Add(1) <= r.sc.ReactPause {
+			// a listener that answers the resume by pausing again, from a goroutine of its own
+			done := make(chan struct{})
+			go func() { r.b.Pause(); close(done) }()
+			<-done
+		}
 	case b2.ShutdownEvent:
 		r.log.Logf("L", "shutdown")
 	case b2.AuditSkipEvent:
